@@ -491,10 +491,12 @@ func c03LabelsJSON(c *Ctx, fn *ssa.Function) {
 		}
 	}
 	for _, k := range cands {
-		for _, b := range k.Blocks {
-			for _, ins := range b.Instrs {
-				if isBlockAlloc(ins) != nil {
-					makers[k] = true
+		for _, xf := range c.P.expandedFuncs(k) {
+			for _, b := range xf.Blocks {
+				for _, ins := range b.Instrs {
+					if isBlockAlloc(ins) != nil {
+						makers[k] = true
+					}
 				}
 			}
 		}
@@ -507,14 +509,15 @@ func c03LabelsJSON(c *Ctx, fn *ssa.Function) {
 				if derivesFromCopyOf(o, used) {
 					labelsOK = true
 				}
-				// a parameter of a maker: judge the argument handed in by unpackBlock
-				if p, ok := o.(*ssa.Parameter); ok {
-					for i, q := range params {
-						if q == p && i < len(args) {
-							for _, oa := range originsOf(args[i], nil) {
-								if derivesFromCopyOf(oa, used) {
-									labelsOK = true
-								}
+				// a parameter of a maker (or a copy of it): judge the argument handed in by unpackBlock
+				for i, q := range params {
+					if i >= len(args) {
+						continue
+					}
+					if o == ssa.Value(q) || derivesFromCopyOf(o, q) {
+						for _, oa := range originsOf(args[i], nil) {
+							if derivesFromCopyOf(oa, used) {
+								labelsOK = true
 							}
 						}
 					}
@@ -543,17 +546,19 @@ func c03LabelsJSON(c *Ctx, fn *ssa.Function) {
 				c.Sites++
 				c.Check(noneLeft(b), "labels.exact", key+":block-literal", call.Pos(), "constructed only when no label name is left",
 					"an hcl.Block is constructed on a path where label names may still be left: the block has fewer labels than the schema names")
-				for _, kb := range k.Blocks {
-					for _, kin := range kb.Instrs {
-						if al := isBlockAlloc(kin); al != nil {
-							checkLabels(al, used, call.Call.Args, k.Params)
+				for _, xf := range c.P.expandedFuncs(k) {
+					for _, kb := range xf.Blocks {
+						for _, kin := range kb.Instrs {
+							if al := isBlockAlloc(kin); al != nil {
+								checkLabels(al, used, call.Call.Args, k.Params)
+							}
 						}
 					}
 				}
 			}
 		}
 	}
-	c.Floor("labels.exact json block literals", nLit, 2, "single and repeated block bodies")
+	c.Floor("labels.exact json block literals", nLit, 1, "single and repeated block bodies (one call of a shared maker may stand for both)")
 	// (b) recursive calls: labelsLeft[1:], used one longer
 	nRec := 0
 	for _, b := range fn.Blocks {
@@ -778,17 +783,19 @@ func inLoop(b *ssa.BasicBlock) bool {
 func c03Forms(c *Ctx, fns ...*ssa.Function) {
 	for _, fn := range fns {
 		have := map[string]bool{}
-		for _, b := range fn.Blocks {
-			for _, ins := range b.Instrs {
-				ta, ok := ins.(*ssa.TypeAssert)
-				if !ok {
-					continue
-				}
-				if pt, ok := ta.AssertedType.(*types.Pointer); ok {
-					if nm := namedOf(pt.Elem()); nm != nil && nm.Obj().Pkg() != nil && nm.Obj().Pkg().Path() == jsonPath {
-						// only tests of the node parameter itself
-						if _, isParam := lookThrough(ta.X).(*ssa.Parameter); isParam {
-							have[nm.Obj().Name()] = true
+		for _, xf := range c.P.expandedFuncs(fn) {
+			for _, b := range xf.Blocks {
+				for _, ins := range b.Instrs {
+					ta, ok := ins.(*ssa.TypeAssert)
+					if !ok {
+						continue
+					}
+					if pt, ok := ta.AssertedType.(*types.Pointer); ok {
+						if nm := namedOf(pt.Elem()); nm != nil && nm.Obj().Pkg() != nil && nm.Obj().Pkg().Path() == jsonPath {
+							// only tests of the node parameter itself
+							if _, isParam := lookThrough(ta.X).(*ssa.Parameter); isParam {
+								have[nm.Obj().Name()] = true
+							}
 						}
 					}
 				}
